@@ -51,8 +51,10 @@ def sweep_unwind(job, g):
     heap = 256
     for x in job.defines:
         if x.startswith('HEAP_SIZE='): heap = int(x.split('=')[1])
-    words = max(heap, 192, g['meta'].get('glb_size', 0) + 16) // 8 + 2
-    return ['memset_sweep.0:%d' % words]
+    stk = 192
+    for x in job.defines:
+        if x.startswith('STK_SIZE='): stk = int(x.split('=')[1])
+    return ['memset_sweep_heap.0:%d' % (heap // 8 + 1), 'memset_sweep_stk.0:%d' % (stk // 8 + 1), 'memset_sweep_glb.0:%d' % ((g['meta'].get('glb_size', 0) + 16 + 7) // 8 + 2)]
 
 def is_witness(desc):
     return desc is not None and desc.startswith('WITNESS')
